@@ -336,7 +336,7 @@ class CFG:
         return self.must_pass(self.entry, node, set(doms), include_exc)
 
     # ---- must-facts
-    def facts(self, kills=None):
+    def facts(self, kills=None, gens=None):
         ''' Forward must-analysis: for every node the set of (atom, polarity)
         that hold on every path from entry.
 
@@ -363,6 +363,8 @@ class CFG:
                 if written:
                     out_base = frozenset(f for f in out_base if not mentions(f[0], written))
                 out_base = out_base | frozenset(_gen_facts(cur))
+                if gens and cur.kind == 'stmt':
+                    out_base = out_base | frozenset(gens(cur.ast))
             for (nxt, label) in cur.succ:
                 out = out_base
                 if cur.kind == 'cond' and label in (True, False) and not isinstance(cur.owner, (ast.For, ast.With)):
